@@ -376,6 +376,18 @@ Definition inst_checks (fuel : nat) (m : model) : bool :=
     forallb (bounded (nterms m + Z.of_nat (length vals))) vals
   end.
 
+(* the part of inst_checks that is not proved for all models: no Fatal branch, instances pairwise different,
+   references of the instantiated table in range.  That the final sort builds a permutation is a theorem
+   (Templates_perm.inst_perm_ok), so inst_checks_core implies inst_checks. *)
+Definition inst_checks_core (fuel : nat) (m : model) : bool :=
+  match m_params m with
+  | [] => true
+  | _ =>
+    let '(vals, st) := inst_loop fuel (nterms m) (m_nonterms m) O (inst_start m) [] in
+    negb (is_fatal st) && inst_nodupb (is_list st) &&
+    forallb (bounded (nterms m + Z.of_nat (length vals))) vals
+  end.
+
 (* ---------- lookahead flags (oracle side only; PropagateLookaheads itself is not modelled) ---------- *)
 (* The meaning of a lookahead flag: it is visible in every nonterminal without being declared; a reference
    passes it on unchanged when it is an entry point of the enclosing rule (the first significant symbol, as in
